@@ -4,7 +4,9 @@ import (
 	"bytes"
 	"encoding/json"
 	"fmt"
+	"reflect"
 	"sort"
+	"strings"
 	"sync"
 	"testing"
 
@@ -22,7 +24,7 @@ import (
 // HOp is one step of a history on ONE live message.  Mutations copy a field (or a field of a child)
 // from one of the pre-generated values, so the whole program is plain data.
 type HOp struct {
-	Kind  string `json:"kind"` // copyfield | copychild | size | marshal | marshalto | cssize | csmarshal | rtsize | rtmarshal | unmarshal | reset | clone
+	Kind  string `json:"kind"` // copyfield | copychild | truncate | size | marshal | marshalto | cssize | csmarshal | rtsize | rtmarshal | unmarshal | reset | clone
 	Value int    `json:"value,omitempty"`
 	Field int    `json:"field,omitempty"`
 	Sub   int    `json:"sub,omitempty"`
@@ -155,6 +157,18 @@ func oracleC09(c *HCase) (f *ev.Failure, st hstats) {
 				if len(vals) > 0 && applyMutation(mt, live, model, vals[op.Value%len(vals)], op) && sizedBefore {
 					lenChanged = true
 				}
+			case "truncate":
+				// a repeated field emptied IN PLACE (m.F = m.F[:0]): non-nil, length 0 - the contents are "field unset"
+				fds := fieldsOf(mt.Desc)
+				if len(fds) > 0 {
+					if fd := fds[op.Field%len(fds)]; fd.IsList() {
+						had := model.Has(fd)
+						model.Clear(fd)
+						if truncateInPlace(live, int(fd.Number())) && had && sizedBefore {
+							lenChanged = true
+						}
+					}
+				}
 			case "size":
 				sizedBefore = true
 				_ = fm.Size()
@@ -256,16 +270,38 @@ func oracleC09(c *HCase) (f *ev.Failure, st hstats) {
 	return nil, st
 }
 
+// truncateInPlace sets the Go slice behind repeated field num to a non-nil slice of length 0 (keeping its backing
+// array when it has one); reports whether the field was found.
+func truncateInPlace(m any, num int) bool {
+	v := reflect.ValueOf(m).Elem()
+	tt := v.Type()
+	for i := 0; i < v.NumField(); i++ {
+		tag := tt.Field(i).Tag.Get("protobuf")
+		parts := strings.Split(tag, ",")
+		if len(parts) < 2 || parts[1] != fmt.Sprint(num) || v.Field(i).Kind() != reflect.Slice {
+			continue
+		}
+		f := v.Field(i)
+		if f.IsNil() {
+			f.Set(reflect.MakeSlice(f.Type(), 0, 4))
+		} else {
+			f.Set(f.Slice(0, 0))
+		}
+		return true
+	}
+	return false
+}
+
 func freshFails(mt *MsgType, model *dynamicpb.Message) bool {
 	fresh := mt.New()
 	FromDynamic(model, fresh)
 	return guard("C09", mt, "fresh", func() { _, _ = fresh.(fastMsg).Marshal() }) != nil
 }
 
-var c09Kinds = []string{"copyfield", "copyfield", "copyfield", "copychild", "copychild", "size", "marshal", "marshal", "marshalto", "cssize", "csmarshal", "rtsize", "rtmarshal", "unmarshal", "reset", "clone"}
+var c09Kinds = []string{"copyfield", "copyfield", "copyfield", "copychild", "copychild", "truncate", "size", "marshal", "marshal", "marshalto", "cssize", "csmarshal", "rtsize", "rtmarshal", "unmarshal", "reset", "clone"}
 
 func TestC09(t *testing.T) {
-	rec := ev.New("C09", "case = one live message of a generated type + a pool of 2..4 generated values + a program of <= 25 ops over {copy a field (or a field of an existing child) from a pool value = set / clear / grow / shrink through plain reflection stores, Size, Marshal, MarshalTo, csproto.Size, csproto.Marshal, the owning runtime's own Size and Marshal, Unmarshal(pool value), Reset, Clone (continue on the clone)}; invariant after every Marshal/MarshalTo/csproto.Marshal: the bytes equal Marshal of a FRESH message populated from the model of the current contents (up to map-entry order when a map has >= 2 entries), no op panics; the concurrent clause runs in a -race binary (TestC09Race); non-trivial = a Marshal* preceded by a Size/Marshal (own, csproto's or the runtime's) and a later mutation that changed the encoded length; distinct by program")
+	rec := ev.New("C09", "case = one live message of a generated type + a pool of 2..4 generated values + a program of <= 25 ops over {copy a field (or a field of an existing child) from a pool value = set / clear / grow / shrink through plain reflection stores, empty a repeated field in place (non-nil slice of length 0), Size, Marshal, MarshalTo, csproto.Size, csproto.Marshal, the owning runtime's own Size and Marshal, Unmarshal(pool value), Reset, Clone (continue on the clone)}; invariant after every Marshal/MarshalTo/csproto.Marshal: the bytes equal Marshal of a FRESH message populated from the model of the current contents (up to map-entry order when a map has >= 2 entries), no op panics; the concurrent clause runs in a -race binary (TestC09Race); non-trivial = a Marshal* preceded by a Size/Marshal (own, csproto's or the runtime's) and a later mutation that changed the encoded length; distinct by program")
 	defer rec.Write()
 	useRecorder(rec)
 	defer func() { t.Log(rec.Summary()); fmt.Print(rec.SurveyReport()) }()
